@@ -512,9 +512,6 @@ package actor
 //@ func (*remoting.ServerActor).GetRemotingMailboxCentral
 //@   trusted
 //@   ensures result != nil
-//@ func (*remoting.MailboxCentral).GetOrCreate
-//@   trusted
-//@   ensures result != nil
 // the registry holds live contexts (with their mailboxes) and futures
 //@ pure regwf(s *System) bool = forall k any :: smhas(&s.actorContexts, k) && typeis(smval(&s.actorContexts, k), "*actor.Context") ==>
 //@     !nilptr(smval(&s.actorContexts, k)) && unboxed(smval(&s.actorContexts, k), "*actor.Context").mailbox != nil
